@@ -11,3 +11,6 @@ import SPModel.Layout
 import SPModel.Sampler
 import SPModel.Compile
 import SPModel.Conform
+import SPModel.Pipeline
+import SPModel.PipelineSem
+import SPModel.RandomGen
